@@ -42,6 +42,7 @@ type c8Handler struct {
 	addOut   bool // middleware that adds an output (only interesting on no-publisher handlers)
 	outN     map[string]int  // uuid -> number of outputs
 	passSelf map[string]bool // uuid -> return the consumed object itself as first output
+	emptyUUID map[string]bool // uuid -> the last output of this message has an empty UUID
 	earlyAck map[string]bool // uuid -> the handler acks the message itself, waits a little, then returns its outputs
 	detach   map[string]bool // uuid -> the passed-on consumed object gets a fresh background context first
 	// parkConsumed: the consumed object is kept in a shared list; reuseParked: the second output is an object parked by another handler
@@ -86,7 +87,7 @@ func c08Body(r *Run) {
 	ownerPtr := map[*message.Message]*c8Handler{} // the returned objects themselves (UUIDs of passed-on consumed messages may repeat)
 	var parked []c8Parked
 	for i := 0; i < nH; i++ {
-		h := &c8Handler{name: fmt.Sprintf("handler-%d", i), outN: map[string]int{}, passSelf: map[string]bool{}, detach: map[string]bool{}, earlyAck: map[string]bool{}, parkConsumed: map[string]bool{}, reuseParked: map[string]bool{},
+		h := &c8Handler{name: fmt.Sprintf("handler-%d", i), outN: map[string]int{}, passSelf: map[string]bool{}, detach: map[string]bool{}, earlyAck: map[string]bool{}, emptyUUID: map[string]bool{}, parkConsumed: map[string]bool{}, reuseParked: map[string]bool{},
 			invoked: map[*Delivery]int{}, returned: map[*Delivery][]*message.Message{}, snaps: map[*Delivery][]*message.Message{}}
 		h.sub = subs[t.Int(nSubs)]
 		h.pub = pubs[t.Int(nPubs)]
@@ -99,6 +100,9 @@ func c08Body(r *Run) {
 		h.named = t.Chance(1, 3)
 		if h.noPub {
 			h.addOut = t.Chance(1, 2)
+		} else {
+			// a middleware of a publishing handler that appends a message of its own to what the handler returned
+			h.addOut = t.Chance(1, 4)
 		}
 		for _, sm := range h.sub.Script[h.subTopic] {
 			h.outN[sm.UUID] = t.Int(4)
@@ -107,6 +111,7 @@ func c08Body(r *Run) {
 			h.reuseParked[sm.UUID] = t.Chance(1, 3)
 			h.detach[sm.UUID] = t.Chance(1, 2)
 			h.earlyAck[sm.UUID] = t.Chance(1, 4)
+			h.emptyUUID[sm.UUID] = t.Chance(1, 6)
 		}
 		hs = append(hs, h)
 		r.Describe("%s: %s/%s -> %s/%s noPublisher=%v addOutputMiddleware=%v outputs=%v passSelf=%v", h.name, h.sub.Name, h.subTopic, h.pub.Name, h.pubTopic, h.noPub, h.addOut, h.outN, h.passSelf)
@@ -175,6 +180,9 @@ func c08Body(r *Run) {
 						}
 					}
 					o := message.NewMessage(fmt.Sprintf("%s>%s>%d", msg.UUID, h.name, k), []byte(fmt.Sprintf("out-%s-%d", h.name, k)))
+					if h.emptyUUID[msg.UUID] && k == h.outN[msg.UUID]-1 {
+						o.UUID = "" // "UUID can be empty": handed on as it is
+					}
 					o.Metadata.Set("from", h.name)
 					o.Metadata.Set("n", fmt.Sprint(k))
 					outs = append(outs, o)
@@ -214,6 +222,22 @@ func c08Body(r *Run) {
 			}
 		} else {
 			hh = rig.Router.AddHandler(h.name, h.subTopic, hsub, h.pubTopic, hpub, fn)
+			if h.addOut {
+				hh.AddMiddleware(func(next message.HandlerFunc) message.HandlerFunc {
+					return func(m *message.Message) ([]*message.Message, error) {
+						o, err := next(m)
+						if d := h.sub.ByMsg[m]; d != nil && err == nil {
+							x := message.NewMessage(m.UUID+">"+h.name+">mw", []byte("mw"))
+							owner[x.UUID] = h
+							ownerPtr[x] = h
+							h.returned[d] = append(append([]*message.Message(nil), h.returned[d]...), x)
+							h.snaps[d] = append(append([]*message.Message(nil), h.snaps[d]...), x.Copy())
+							o = append(append([]*message.Message(nil), o...), x)
+						}
+						return o, err
+					}
+				})
+			}
 		}
 		_ = hh
 	}
